@@ -70,7 +70,8 @@ func structural(ss []string, full bool) []string {
 		for _, b := range ss {
 			out = append(out,
 				`"allOf":[`+a+`,`+b+`]`, `"anyOf":[`+a+`,`+b+`]`, `"oneOf":[`+a+`,`+b+`]`,
-				`"properties":{"a":`+a+`,"b":`+b+`}`, `"properties":{"a":`+a+`},"additionalProperties":`+b, `"properties":{"a":`+a+`},"patternProperties":{"^[ab]":`+b+`}`,
+				`"properties":{"a":`+a+`,"b":`+b+`}`, `"properties":{"a":`+a+`},"additionalProperties":`+b, `"patternProperties":{"^a":`+a+`},"additionalProperties":`+b,
+				`"patternProperties":{"^a":`+a+`,"b$":`+b+`}`, `"properties":{"a":`+a+`},"patternProperties":{"^[ab]":`+b+`}`,
 				`"if":`+a+`,"then":`+b, `"if":`+a+`,"else":`+b, `"items":`+a+`,"contains":`+b)
 			if full {
 				for _, c := range ss[:6] {
